@@ -2581,6 +2581,13 @@ class Evaluator:
                 return Const(float(args[0].value))
             except ValueError:
                 pass
+        _OPERATOR_FUNCS = {'operator.add': '+', 'operator.sub': '-', 'operator.mul': '*', 'operator.truediv': '/', 'operator.floordiv': '//', 'operator.mod': '%',
+                           'operator.pow': '**', 'operator.and_': '&', 'operator.or_': '|', 'operator.xor': '^'}
+        if n in _OPERATOR_FUNCS and len(args) == 2 and not kwargs:
+            return self.binop(_OPERATOR_FUNCS[n], args[0], args[1])      # operator.add(a, b) is a + b
+        _OPERATOR_CMPS = {'operator.eq': '==', 'operator.ne': '!=', 'operator.lt': '<', 'operator.le': '<=', 'operator.gt': '>', 'operator.ge': '>=', 'operator.is_': 'is', 'operator.is_not': 'is not'}
+        if n in _OPERATOR_CMPS and len(args) == 2 and not kwargs:
+            return self.compare(_OPERATOR_CMPS[n], args[0], args[1])
         if n == 'zip' and len(args) >= 2 and not kwargs:
             # zip of evident sequences (literals, NamedTuple records) is the tuple of their columns
             cols = [self._as_tuple(a.value if isinstance(a, GlobalVal) else a, self._cur_state or _State(), self._cur_depth or 0) for a in args]
